@@ -188,7 +188,44 @@ func previewSafe(pr *polyProg) bool {
 	return some
 }
 
+// progScale: a third of the programs with a fillet or chamfer are built at 2^-20 of their size (edges of a few
+// micrometres if the unit is a metre) and a sixth at 2^12; the output is scaled back (both exact in binary
+// floating point), so the same expectations apply - a builder must not carry absolute length thresholds.
+func progScale(pr *polyProg) float64 {
+	h, some := len(pr.Vs), false
+	for _, s := range pr.Vs {
+		h = h*37 + s.X*11 + s.Y*5 + s.R*3 + s.F
+		if s.K == "s" || s.K == "c" {
+			some = true
+		}
+	}
+	if h < 0 {
+		h = -h
+	}
+	if !some {
+		return 1
+	}
+	switch h % 6 {
+	case 1, 4:
+		return 1.0 / (1 << 20)
+	case 2:
+		return 1 << 12
+	}
+	return 1
+}
+
 func runProg(pr *polyProg) (vs []v2.Vec, panicked bool) {
+	sc := progScale(pr)
+	vs, panicked = runProgAt(pr, sc)
+	if sc != 1 {
+		for i := range vs {
+			vs[i] = v2.Vec{X: vs[i].X / sc, Y: vs[i].Y / sc}
+		}
+	}
+	return vs, panicked
+}
+
+func runProgAt(pr *polyProg, sc float64) (vs []v2.Vec, panicked bool) {
 	defer func() {
 		if r := recover(); r != nil {
 			vs, panicked = nil, true
@@ -198,20 +235,20 @@ func runProg(pr *polyProg) (vs []v2.Vec, panicked bool) {
 	for _, s := range pr.Vs {
 		var pv *sdf.PolygonVertex
 		if s.Pol == 1 {
-			pv = p.Add(float64(s.X), float64(s.Y)*math.Pi/2).Polar()
+			pv = p.Add(float64(s.X)*sc, float64(s.Y)*math.Pi/2).Polar()
 		} else {
-			pv = p.Add(float64(s.X), float64(s.Y))
+			pv = p.Add(float64(s.X)*sc, float64(s.Y)*sc)
 		}
 		if s.Rel == 1 {
 			pv.Rel()
 		}
 		switch s.K {
 		case "s":
-			pv.Smooth(float64(s.R), s.F)
+			pv.Smooth(float64(s.R)*sc, s.F)
 		case "c":
-			pv.Chamfer(float64(s.R))
+			pv.Chamfer(float64(s.R) * sc)
 		case "a":
-			pv.Arc(float64(s.R), s.F)
+			pv.Arc(float64(s.R)*sc, s.F)
 		}
 	}
 	if pr.Closed {
